@@ -17,6 +17,8 @@ import (
 func runC05Iso(c *eng.Ctx) {
 	p := c.P
 	defer runC05Wrappers(c)
+	defer runC05Visible(c)
+	defer runC05Partial(c)
 	f := c.Fn("tsdb:HeadAndOOOChunkReader.chunkOrIterable")
 	n := 0
 	ast.Inspect(f.Body, func(x ast.Node) bool {
@@ -134,4 +136,218 @@ func runC05Wrappers(c *eng.Ctx) {
 		}
 	}
 	c.Check("R8", "tsdb", "the wrapper that hides the uncommitted tail of a head chunk was found", wrappers >= 1, "", fmt.Sprint(wrappers))
+}
+
+// C05.R9 (finding F67): a head chunk is handed to readers wrapped in safeHeadChunk, and of that wrapper only Iterator
+// applies the isolation bound — Bytes, NumSamples and the rest are promoted from the raw chunk.  A chunk querier's
+// consumers (remote read, the chunk merge) use the bytes, so a head chunk may leave a ChunkOrIterable-style function as
+// the *chunk* result only after a visibility test; otherwise it has to leave as the iterable.  The rule finds the
+// producers of safeHeadChunk values (a composite literal, then functions that return a producer's result) and requires
+// that no function with results (chunkenc.Chunk, chunkenc.Iterable, …) returns a producer's result as its chunk
+// directly.  It also states what the visibility test rests on: the flag is computed under the series lock from the
+// same count the iterator uses (visibleSamples), and the test returns no chunk when the flag is set.
+func runC05Visible(c *eng.Ctx) {
+	p := c.P
+	type fn struct {
+		fs   *eng.FuncSrc
+		name string
+	}
+	var fns []fn
+	for _, fs := range p.AllFuncs() {
+		if fs.Decl.Body == nil || !strings.HasSuffix(fs.Pkg.PkgPath, "/tsdb") || strings.HasSuffix(p.Pos(fs.Decl.Pos()), "_test.go") || strings.Contains(p.Pos(fs.Decl.Pos()), "_test.go:") {
+			continue
+		}
+		fns = append(fns, fn{fs, eng.FuncName(fs.Obj)})
+	}
+	isChunk := func(t types.Type) bool { return strings.HasSuffix(t.String(), "tsdb/chunkenc.Chunk") }
+	isIterable := func(t types.Type) bool { return strings.HasSuffix(t.String(), "tsdb/chunkenc.Iterable") }
+	producers := map[*types.Func]bool{}
+	calleeOf := func(fs *eng.FuncSrc, e ast.Expr) *types.Func {
+		call, ok := ast.Unparen(e).(*ast.CallExpr)
+		if !ok {
+			return nil
+		}
+		var id *ast.Ident
+		switch x := ast.Unparen(call.Fun).(type) {
+		case *ast.Ident:
+			id = x
+		case *ast.SelectorExpr:
+			id = x.Sel
+		}
+		if id == nil {
+			return nil
+		}
+		f, _ := fs.Pkg.TypesInfo.Uses[id].(*types.Func)
+		return f
+	}
+	for changed := true; changed; {
+		changed = false
+		for _, f := range fns {
+			sig := f.fs.Obj.Type().(*types.Signature)
+			if producers[f.fs.Obj] || sig.Results().Len() == 0 || !isChunk(sig.Results().At(0).Type()) || sig.Results().Len() > 1 && isIterable(sig.Results().At(1).Type()) {
+				continue
+			}
+			ast.Inspect(f.fs.Decl.Body, func(x ast.Node) bool {
+				rs, ok := x.(*ast.ReturnStmt)
+				if !ok || len(rs.Results) == 0 {
+					return true
+				}
+				r0 := nodeText(rs.Results[0])
+				if strings.HasPrefix(r0, "&safeHeadChunk{") || producers[calleeOf(f.fs, rs.Results[0])] {
+					producers[f.fs.Obj] = true
+					changed = true
+				}
+				return true
+			})
+		}
+	}
+	var pn []string
+	for f := range producers {
+		pn = append(pn, eng.FuncName(f))
+	}
+	sort.Strings(pn)
+	c.Check("R9", "tsdb", "producers of isolation-wrapped head chunks found (the literal and what returns it)", len(pn) >= 2, "", strings.Join(pn, ", "))
+	sites := 0
+	for _, f := range fns {
+		sig := f.fs.Obj.Type().(*types.Signature)
+		if sig.Results().Len() < 2 || !isChunk(sig.Results().At(0).Type()) || !isIterable(sig.Results().At(1).Type()) {
+			continue
+		}
+		fromProducer := map[types.Object]string{}
+		ast.Inspect(f.fs.Decl.Body, func(x ast.Node) bool {
+			as, ok := x.(*ast.AssignStmt)
+			if !ok || len(as.Rhs) != 1 || len(as.Lhs) == 0 {
+				return true
+			}
+			if cal := calleeOf(f.fs, as.Rhs[0]); cal != nil && producers[cal] {
+				if id, ok := as.Lhs[0].(*ast.Ident); ok {
+					if o := f.fs.Pkg.TypesInfo.ObjectOf(id); o != nil {
+						fromProducer[o] = eng.FuncName(cal)
+					}
+				}
+			}
+			return true
+		})
+		if len(fromProducer) == 0 {
+			continue
+		}
+		var bad []string
+		badPos := f.fs.Decl.Pos()
+		ast.Inspect(f.fs.Decl.Body, func(x ast.Node) bool {
+			rs, ok := x.(*ast.ReturnStmt)
+			if !ok || len(rs.Results) == 0 {
+				return true
+			}
+			if cal := calleeOf(f.fs, rs.Results[0]); cal != nil && producers[cal] {
+				bad = append(bad, nodeText(rs))
+				badPos = rs.Pos()
+			}
+			if id, ok := ast.Unparen(rs.Results[0]).(*ast.Ident); ok {
+				if src, ok := fromProducer[f.fs.Pkg.TypesInfo.ObjectOf(id)]; ok {
+					bad = append(bad, nodeText(rs)+" ("+id.Name+" from "+src+")")
+					badPos = rs.Pos()
+				}
+			}
+			return true
+		})
+		sites++
+		c.FnsAnalysed[f.name] = true
+		c.Check("R9", f.name, "a head chunk obtained under isolation is not returned as the chunk result without a visibility test", len(bad) == 0, p.Pos(badPos),
+			strings.Join(bad, " ; ")+" — the chunk's bytes and sample count include the samples of a transaction that is still committing; only Iterator hides them")
+	}
+	c.Check("R9", "tsdb", "functions handing out head chunks as (chunk, iterable) found", sites >= 3, "", fmt.Sprint(sites))
+
+	cfs := c.Fn("tsdb:Head.chunkFromSeries")
+	lits := cfs.LitTexts("tsdb:safeHeadChunk")
+	okLit := len(lits) == 1
+	var flagField string
+	for _, l := range lits {
+		found := false
+		for k, v := range l {
+			if strings.Contains(v, "visibleSamples(") && strings.Contains(v, "isoState") && strings.Contains(v, "<") && strings.Contains(v, "NumSamples()") {
+				found = true
+				flagField = k
+			}
+		}
+		okLit = okLit && found
+	}
+	c.Check("R9", cfs.Where(), "the wrapper records, under the series lock, whether the reader's isolation state hides samples of the chunk (visibleSamples(…, isoState) < NumSamples())", okLit, p.Pos(cfs.Body.Pos()), fmt.Sprint(lits))
+	if p.TryFunc("tsdb:chunkOrVisiblePart") == nil || flagField == "" {
+		c.Fail("R9", "tsdb:chunkOrVisiblePart", "the visibility test exists", "", "no function tests the wrapper's flag")
+		return
+	}
+	vt := c.Fn("tsdb:chunkOrVisiblePart")
+	n := 0
+	ast.Inspect(vt.Body, func(x ast.Node) bool {
+		rs, ok := x.(*ast.ReturnStmt)
+		if !ok || len(rs.Results) != 2 || nodeText(rs.Results[0]) != "nil" {
+			return true
+		}
+		// the only conditions: the value is a wrapper (type assertion ok) and its flag is set
+		flagged, other := 0, 0
+		for _, cd := range vt.CondsOf(rs) {
+			for _, part := range strings.Split(strings.TrimSuffix(cd, "=T"), "&&") {
+				part = strings.TrimSpace(part)
+				switch {
+				case !strings.HasSuffix(cd, "=T"):
+					other++
+				case part == "ok":
+				case strings.HasSuffix(part, "."+flagField) && !strings.Contains(part, "!"):
+					flagged++
+				default:
+					other++
+				}
+			}
+		}
+		if flagged == 1 && other == 0 {
+			n++
+		}
+		return true
+	})
+	c.Check("R9", vt.Where(), "a wrapper whose flag is set leaves as the iterable, with no chunk", n == 1, p.Pos(vt.Body.Pos()), fmt.Sprint(n))
+	it := c.Fn("tsdb:memSeries.iterator")
+	it.Has("R9", p.Call("tsdb:memSeries.visibleSamples"), 1)
+}
+
+// C05.R10 (finding F69, open): "the samples of one transaction become visible together or not at all".  Append accepts
+// a sample against the series' state at that moment; Commit re-checks it under the series lock and, if another
+// transaction has moved the series on meanwhile, drops it (counted in the commit context's …Rejected fields) while
+// the transaction's other samples are stored.  For the transaction not to be reported as applied whole, something
+// Commit counted as rejected has to reach what it returns; the rule looks for a return of a non-nil error under a
+// condition that reads one of those counters.
+func runC05Partial(c *eng.Ctx) {
+	p := c.P
+	f := c.Fn("tsdb:headAppenderBase.Commit")
+	st, ok := p.Named("tsdb:appenderCommitContext").Underlying().(*types.Struct)
+	if !ok {
+		c.Fail("R10", f.Where(), "commit context resolved", "", "")
+		return
+	}
+	var rejected []string
+	for i := 0; i < st.NumFields(); i++ {
+		if strings.HasSuffix(st.Field(i).Name(), "Rejected") {
+			rejected = append(rejected, st.Field(i).Name())
+		}
+	}
+	c.Check("R10", f.Where(), "the commit context counts the samples dropped at commit time (…Rejected)", len(rejected) >= 3, p.Pos(f.Body.Pos()), strings.Join(rejected, ", "))
+	reported := 0
+	ast.Inspect(f.Body, func(x ast.Node) bool {
+		rs, ok := x.(*ast.ReturnStmt)
+		if !ok || len(rs.Results) != 1 || nodeText(rs.Results[0]) == "nil" {
+			return true
+		}
+		for _, cd := range f.CondsOf(rs) {
+			for _, r := range rejected {
+				if strings.Contains(cd, "."+r) {
+					reported++
+				}
+			}
+		}
+		if strings.Contains(nodeText(rs.Results[0]), "Rejected") {
+			reported++
+		}
+		return true
+	})
+	c.Check("R10", f.Where(), "a transaction of which Commit dropped a part is not reported as committed whole (a non-nil return that depends on a …Rejected count)", reported >= 1, p.Pos(f.Body.Rbrace),
+		"Commit returns nil whatever it dropped: the transaction's other samples stay, the dropped ones are gone for good and the caller is told nothing")
 }
